@@ -1776,6 +1776,46 @@ func SplitCaseOr(p *load.Program, overlay map[string][]byte) (map[string][]byte,
 				}
 				return true
 			})
+			// `var x = f(...)` / `var ( a = f(); b = g() )` inside a function body, without a declared type:
+			// the same as `x := f(...)`, which is the statement form the inliner handles
+			ast.Inspect(f, func(n ast.Node) bool {
+				ds, ok := n.(*ast.DeclStmt)
+				if !ok {
+					return true
+				}
+				gd, ok := ds.Decl.(*ast.GenDecl)
+				if !ok || gd.Tok != token.VAR {
+					return true
+				}
+				var lines []string
+				hasCall := false
+				for _, sp := range gd.Specs {
+					vs, ok := sp.(*ast.ValueSpec)
+					if !ok || vs.Type != nil || len(vs.Values) == 0 {
+						return true
+					}
+					var names []string
+					for _, nm := range vs.Names {
+						names = append(names, nm.Name)
+					}
+					var vals []string
+					for _, v := range vs.Values {
+						vals = append(vals, text(v))
+						ast.Inspect(v, func(m ast.Node) bool {
+							if _, isCall := m.(*ast.CallExpr); isCall {
+								hasCall = true
+							}
+							return true
+						})
+					}
+					lines = append(lines, strings.Join(names, ", ")+" := "+strings.Join(vals, ", "))
+				}
+				if hasCall && len(lines) > 0 {
+					repls = append(repls, repl{p.Fset.Position(ds.Pos()).Offset, p.Fset.Position(ds.End()).Offset, strings.Join(lines, "\n")})
+					notes = append(notes, fmt.Sprintf("`var x = call` written as `x := call` at %s (analysis only)", p.Fset.Position(ds.Pos())))
+				}
+				return true
+			})
 			if len(repls) == 0 {
 				continue
 			}
